@@ -10,6 +10,8 @@ appended inside/outside the outer length, +-1 at every offset of short
 encodings) either raises a decode error or is itself well-formed, i.e.
 re-encodes byte-identically."""
 import hashlib
+import os
+import sys
 
 from hypothesis import strategies as st
 
@@ -520,6 +522,8 @@ def check(case):
         return check_oversize(case)
     if case["src"] == "rec":
         return check_rec(case)
+    if case["src"] == "raw":
+        return check_raw(case)
     if case["src"] == "codec":
         return check_codec(case)
     if case["src"] == "reuse":
@@ -1077,6 +1081,167 @@ def check_reuse(case):
             "/")[-1], "parse(A) then parse(B) writes %s, B is %s" % (
                 out[:40].hex(), b["bytes"][:40].hex()), labels=labels)
     return good(labels=labels + ["generic"])
+
+
+# ---------------------------------------------------------------------------
+# raw inputs (what the coverage-guided stage produces): selector + bytes
+# ---------------------------------------------------------------------------
+RAW_SUITES = [0x002f, 0x0033, 0xc013, 0xc01d, 0x0034, 0xc018, 0x1301,
+              0xc02b]
+RAW_VERS = [(3, 0), (3, 1), (3, 2), (3, 3), (3, 4)]
+
+
+def raw_ctx(sel):
+    """selector byte -> (kind, ctx)"""
+    if sel & 0x80:
+        return "ext", {"server": bool(sel & 1), "hrr": bool(sel & 2),
+                       "cert": bool(sel & 4)}
+    ver = RAW_VERS[sel % 5]
+    suite = RAW_SUITES[(sel // 5) % len(RAW_SUITES)]
+    # only combinations that can be the state of a connection
+    if ver == (3, 4):
+        suite = 0x1301
+    elif suite == 0x1301:
+        suite = 0x002f
+    elif suite == 0xc02b and ver < (3, 3):
+        suite = 0xc013
+    return "msg", {"ver": ver, "suite": suite}
+
+
+def selector_for(ctx):
+    v = tuple(ctx["ver"])
+    vi = RAW_VERS.index(v) if v in RAW_VERS else 3
+    su = ctx.get("suite")
+    si = RAW_SUITES.index(su) if su in RAW_SUITES else 0
+    return vi + 5 * si
+
+
+def check_raw(case):
+    data = bytes.fromhex(case["hex"])
+    kind, ctx = raw_ctx(case["sel"])
+    labels = ["src=raw", "kind=" + kind]
+    # framing is the defragmenter's business: the parser is handed exactly
+    # the declared length, never less, never more
+    if len(data) < 4:
+        return good(nt=False, labels=labels)
+    declared = int.from_bytes(data[1:4] if kind == "msg" else data[2:4],
+                              "big")
+    if len(data) < 4 + declared:
+        return good(nt=False, labels=labels + ["incomplete"])
+    data = data[:4 + declared]
+    if kind == "msg":
+        # message types the state machine never hands to a parser in this
+        # version (order / applicability is C06's subject)
+        t = data[0]
+        v13 = ctx["ver"] == (3, 4)
+        if (v13 and t in (0, 12, 14, 16, 22, 67)) or \
+                (not v13 and t in (8, 24, 25)) or \
+                (t == 12 and ctx["suite"] == 0x002f):
+            return good(nt=False, labels=labels + ["not-dispatched"])
+    cls = ("ext:%d" % int.from_bytes(data[:2], "big")) if kind == "ext" \
+        else HandshakeType.toRepr(data[0]) or str(data[0])
+    from tlslite.errors import TLSInternalError
+    try:
+        out = reencode(kind, data, ctx)
+    except DECODE_ERRORS:
+        return good(nt=len(data) >= 8, labels=labels + ["rejected"])
+    except TLSInternalError as e:
+        if "Multiple extensions" in str(e):
+            # duplicates are refused when the list is first consulted
+            return good(nt=False, labels=labels + ["duplicate-extensions"])
+        raise
+    except AssertionError:
+        if kind == "msg" and data[0] == 12:
+            # ServerKeyExchange naming hash or signature algorithm 0: a
+            # value question (unknown algorithm), the framing was fine
+            import traceback
+            tb = traceback.extract_tb(sys.exc_info()[2])
+            if tb[-1].name == "write":
+                return good(nt=False, labels=labels + ["unknown-algorithm"])
+        raise
+    if out == data:
+        return good(nt=len(data) >= 8, labels=labels + ["still-wellformed"])
+    if kind == "msg" and data[0] in (12, 16, 25):
+        # ... and a compressed certificate is compressed afresh
+        # DH / SRP numbers with leading zero bytes (or none at all) denote
+        # the same value and are re-encoded minimally: not a framing matter
+        try:
+            if reencode(kind, out, ctx) == out:
+                return good(nt=False, labels=labels + ["value-normalised"])
+        except DECODE_ERRORS:
+            pass
+    if kind == "msg" and data[0] == HandshakeType.next_protocol and \
+            len(out) == len(data):
+        n = data[4] if len(data) > 4 else 0
+        if out[:5 + n + 1] == data[:5 + n + 1]:
+            return good(nt=False, labels=labels + ["opaque-padding"])
+    return bad("lenient-parse:%s:raw" % cls,
+               "input %s accepted, re-encodes as %s" % (
+                   data[:48].hex(), out[:48].hex()), labels=labels)
+
+
+def fuzz_stage(tier, seed):
+    """atheris campaigns in parallel sub-processes (own corpus dirs, seeds
+    derived from VERIF_SEED); returns (recorded failing cases, stats)."""
+    import json
+    import shutil
+    import subprocess
+    import tempfile
+    from vlib import ROOT
+    from vlib.runner import HarnessError
+    target = os.path.join(ROOT, "fuzz", "codec_target.py")
+    try:
+        import importlib.util
+        if importlib.util.find_spec("atheris") is None:
+            raise ImportError
+    except ImportError:
+        raise HarnessError("atheris not importable: stage skipped")
+    runs = 20000 if tier == "quick" else 400000
+    nproc = 4 if tier == "quick" else 16
+    budget = 60 if tier == "quick" else 1500
+    base = tempfile.mkdtemp(prefix="c15fuzz-")
+    procs = []
+    try:
+        for k in range(nproc):
+            wd = os.path.join(base, "w%d" % k)
+            os.makedirs(wd)
+            procs.append((wd, subprocess.Popen(
+                [sys.executable, "-B", target, wd, "-runs=%d" % runs,
+                 "-seed=%d" % (1 + (seed * 131 + k) % (2 ** 31 - 2)),
+                 "-max_len=2048", "-timeout=20",
+                 "-max_total_time=%d" % budget, "-print_final_stats=1"],
+                stdout=subprocess.DEVNULL, stderr=subprocess.PIPE,
+                env=dict(os.environ, PYTHONHASHSEED="0"))))
+        extra, execs, cov, corp = [], 0, 0, 0
+        for wd, pr in procs:
+            try:
+                _, err = pr.communicate(timeout=budget + 120)
+            except subprocess.TimeoutExpired:
+                pr.kill()
+                _, err = pr.communicate()
+            err = err.decode("utf-8", "replace")
+            for line in err.splitlines():
+                if line.startswith("stat::number_of_executed_units:"):
+                    execs += int(line.split()[-1])
+                if " cov: " in line and ("DONE" in line or "INITED" in line
+                                         or "pulse" in line):
+                    try:
+                        cov = max(cov, int(line.split(" cov: ")[1].split()[0]))
+                        corp = max(corp, int(line.split(" corp: ")[1].split(
+                            "/")[0]))
+                    except (IndexError, ValueError):
+                        pass
+            fj = os.path.join(wd, "findings.json")
+            if os.path.exists(fj):
+                with open(fj) as f:
+                    for sig, case in json.load(f)["findings"].items():
+                        extra.append(case)
+        return extra, {"tool": "atheris/libFuzzer", "processes": nproc,
+                       "executions": execs, "coverage_edges": cov,
+                       "corpus_units": corp,
+                       "recorded_failing_inputs": len(extra)}
+    finally:
+        shutil.rmtree(base, ignore_errors=True)
 
 
 def check_oversize(case):
